@@ -114,6 +114,13 @@ pub fn gen_workload(ch: &mut Chooser) -> Workload {
     let mut steps = vec![];
     let files = ["a.txt", "b.txt", "dir/c.txt", "dir/sub/d.txt"];
     let mut have_ws2 = false;
+    // `undo` and `op restore` must never unwind the creation of the workspace
+    // itself ("Nothing checked out in this workspace" would then be the
+    // fault-free outcome, not a crash effect): `undo` only directly after a
+    // command that certainly published an operation, `op restore @--` only
+    // when two such operations exist.
+    let mut certain_ops = 0usize;
+    let mut prev_certain = false;
     for i in 0..n {
         let mut edits = vec![];
         for _ in 0..ch.range(0, 2) {
@@ -124,7 +131,14 @@ pub fn gen_workload(ch: &mut Chooser) -> Workload {
                 edits.push((s(f), Some(format!("content {i}.{}\n", ch.choose(1000)))));
             }
         }
-        let k = ch.weighted(&[4, 3, 3, 2, 2, 2, 2, 2, 1, 2, 1, 1]);
+        let mut k = ch.weighted(&[4, 3, 3, 2, 2, 2, 2, 2, 1, 2, 1, 1, 1, 1, 1, 1, 1, 1]);
+        if (k == 7 && !prev_certain) || (k == 13 && certain_ops < 2) {
+            k = 0;
+        }
+        prev_certain = matches!(k, 0 | 1 | 2 | 9 | 12);
+        if prev_certain || k == 7 || k == 13 {
+            certain_ops += 1;
+        }
         let args: Vec<String> = match k {
             0 => vec![s("new"), s("-m"), format!("new {i}")],
             1 => vec![s("describe"), s("-m"), format!("desc {i}")],
@@ -141,6 +155,12 @@ pub fn gen_workload(ch: &mut Chooser) -> Workload {
                 vec![s("workspace"), s("add"), s("../ws2")]
             }
             11 => vec![s("rebase"), s("-r"), s("@"), s("-d"), s("root()")],
+            12 => vec![s("duplicate"), s("@")],
+            13 => vec![s("op"), s("restore"), s("@--")],
+            14 => vec![s("util"), s("gc"), s("--expire=now")],
+            15 => vec![s("sparse"), s("set"), s("--clear"), s("--add"), s("dir")],
+            16 => vec![s("split"), s("a.txt"), s("-m"), format!("split {i}")],
+            17 => vec![s("debug"), s("reindex")],
             _ => vec![s("status")],
         };
         steps.push(Step {
